@@ -72,6 +72,8 @@ def make_sub(name, env):
         c.bs(0, reflectivity=env.R[1]); r.bs(0, 1, env.R[1])
         c.herald(1, 0); r.herald(1, 0, 0)
         c.herald(0, 1); r.herald(0, 1, 1)
+    elif name == "empty2":       # a block without components
+        c = lw.Circuit(2); r = RefCircuit(2)
     elif name == "bar2":         # holds a barrier (a list of modes that must move with the block)
         c = lw.Circuit(2); r = RefCircuit(2)
         c.bs(0, reflectivity=env.R2); r.bs(0, 1, env.R2)
@@ -290,8 +292,11 @@ def run(tier, seed):
     # ---- stage 1b (quick): two additions followed by one more operation (mode numbering after out-of-order adds)
     if tier == "quick":
         n3 = 5
-        adds = [("add", nm, m, False) for nm in ("h3mid", "h3io", "h4two", "bs2") for m in range(0, n3 - 1)]
-        third = [o for o in alphabet(n3, ("h3mid",), True) if o[0] != "add" or o[2] in (0, 2)]
+        # "sys:4:0,3": ancillas at both ends of the block, so that the parent's list of ancillas is not in ascending
+        # order after two additions; "u3" as third operation spans ancillas of both earlier additions
+        adds = [("add", nm, m, False) for nm in ("h3mid", "h3io", "h4two", "bs2", "sys:4:0,3") for m in range(0, n3 - 1)]
+        third = [o for o in alphabet(n3, ("h3mid",), True) if o[0] != "add" or o[2] in (0, 2)] \
+            + [("add", "u3", m, False) for m in (0, 1, 2)]
 
         def shard_1b(firsts):
             a = kernel.Acc()
